@@ -172,6 +172,15 @@ def showFates (g : Net) : String :=
 def parseAct (rest : List String) : Option Act :=
   match rest with
   | ["fates"] => some .nop
+  | ["inject", j, "pev", src, p, st, ex, et] =>
+    some (.injectPev j.toNat! src.toNat! p.toNat! ((Supv.Proc.PState.ofCode st.toNat!).getD .unknown) (s2b ex) et.toNat!)
+  | ["inject", j, "info", src, snap] =>
+    let sn : List Supv.Proc.Snap := if snap == "-" then [] else (snap.splitOn ",").filterMap (fun w =>
+      match w.splitOn ":" with
+      | [p, st, ex, et] => some { proc := p.toNat!, state := (Supv.Proc.PState.ofCode st.toNat!).getD .unknown, expected := s2b ex,
+                                  etime := et.toNat!, disabled := false }
+      | _ => none)
+    some (.injectInfo j.toNat! src.toNat! sn)
   | "inject" :: j :: spec =>
     match j.toNat?, parseInjected spec with
     | some j, some op => some (.inject j op)
